@@ -40,6 +40,8 @@ func (h *Handler6) PrintTable() {
 		}
 	}
 
+	h.Lock() // the router table is updated by ProcessPacket
+	defer h.Unlock()
 	if len(h.LANRouters) > 0 {
 		fmt.Printf("icmp6 routers table len=%v\n", len(h.LANRouters))
 		for _, v := range h.LANRouters {
@@ -65,6 +67,8 @@ func New6(session *packet.Session) (*Handler6, error) {
 // Close releases underlying resources.
 // The handler is not longer usable after calling Close().
 func (h *Handler6) Close() error {
+	h.Lock()
+	defer h.Unlock()
 	if h.closed {
 		return nil
 	}
@@ -177,11 +181,13 @@ func (h *Handler6) ProcessPacket(pkt packet.Frame) (err error) {
 
 		// wakeup all pending spoof goroutines
 		// we want to immediately spoof hosts after an RA
-		if h.huntList.Len() > 0 {
+		h.Lock()
+		if h.huntList.Len() > 0 && !h.closed { // Close() has closed the channel already
 			ch := h.closeChan
 			h.closeChan = make(chan bool)
 			close(ch) // this will cause all spoof loop select to wakeup
 		}
+		h.Unlock()
 
 		repeat++
 		if repeat%4 != 0 { // skip if too often - home router send RA every 4 sec
